@@ -42,7 +42,8 @@ type Plan struct {
 	TruncAt     int  // >= 0: the stream ends here (peer died)
 	ErrAt       int  // >= 0: reads touching this offset fail with ErrSimIO
 	Seekable    bool
-	Start       int // the reader is positioned here when handed over (bytes before it were consumed by someone else)
+	SeekFails   bool // the reader offers Seek, but it fails (a pipe or a socket behind an *os.File)
+	Start       int  // the reader is positioned here when handed over (bytes before it were consumed by someone else)
 }
 
 func (p Plan) Faulted() bool { return p.TruncAt >= 0 || p.ErrAt >= 0 }
@@ -54,6 +55,9 @@ func (p Plan) String() string {
 	}
 	if p.Seekable {
 		s += "+seekable"
+	}
+	if p.SeekFails {
+		s += "+seek-fails"
 	}
 	if p.TruncAt >= 0 {
 		s += "+trunc@" + itoa(p.TruncAt)
@@ -215,6 +219,10 @@ func (r *Reader) Read(p []byte) (int, error) {
 
 func (r *SeekReader) Seek(offset int64, whence int) (int64, error) {
 	r.tick()
+	if r.plan.SeekFails {
+		pSeekFailed.Hit()
+		return 0, errors.New("simio: illegal seek")
+	}
 	var abs int64
 	switch whence {
 	case io.SeekStart:
@@ -333,6 +341,7 @@ var (
 	pZeroRead    = simrt.NewProbe("io.zero-length-read")
 	pEOFWithData = simrt.NewProbe("io.eof-with-data")
 	pSeek        = simrt.NewProbe("io.seek")
+	pSeekFailed  = simrt.NewProbe("io.seek-failed")
 )
 
 // GrowingReaderAt is an io.ReaderAt over a buffer that records are appended to before the
